@@ -12,7 +12,7 @@ POOLS = {
     "mixed_case": ["Qa", "qB", "QC", "Qd", "qE", "QF", "Qg", "qH", "QI", "Qj", "qK", "QL"],
     "quoted": ['"q 1"', '"Q2"', '"q-3"', '"q4"', '"Q 5"', '"q6"', '"q7"', '"q8"', '"q9"', '"q10"', '"q11"', '"q12"'],
 }
-CTE_MAPS = [None, {"a": "cte_one", "x": "cte_two"}, {"a": "zz_a", "x": "Mixed_X"}]
+CTE_MAPS = [None, {"a": "cte_one", "x": "cte_two"}, {"a": "zz_a", "x": "Mixed_X"}, {"a": "Mixed_A", "x": "UPPER_X"}]
 
 
 def namings(rnd, quick):
@@ -97,13 +97,21 @@ def run(chk):
     cases = g.cases("CASE")
     rnd.shuffle(cases)
     cases = cases[:260 if quick else 3000]
+    # WITH in front of UPDATE / MERGE: the CTE is read in the statement's FROM / USING (for MERGE also named directly, without a
+    # subquery around it) - CTE names are statement-local names too
+    gw = chk.tlc("Stmt", c01.cfg(chk, "genw", 8, kinds=("update", "merge"), known=c01.ALL_DEV, emit=True, clauses={"where"}, tbl=("a",), ctes=("x",), maxrel=2),
+                 "generate: WITH in front of UPDATE / MERGE", workers=1, coverage=False, timeout=6000)
+    wc = [c for c in gw.cases("CASE") if any(e["e"] == "cteref" for e in c["prog"])]
+    rnd.shuffle(wc)
+    wc = wc[:40 if quick else 600]
+    cases += wc + [dict(c, merge_direct=True) for c in wc if c["prog"][0]["a"] == "merge"]
     jobs, owner = [], []
     for c in cases:
         for nm in namings(rnd, quick):
             if not valid(c["prog"], nm):
                 continue
             jobs.append({"prog": c["prog"], "opts": {"names_pool": nm["perm"], "cte_names": nm["cte_names"], "alias_tables": nm["alias_tables"],
-                                                     "as_kw": nm["as_kw"],
+                                                     "as_kw": nm["as_kw"], "merge_direct": c.get("merge_direct", False),
                                                      # alias-less "c1 in (select c1 from s.a , b)" is read by the parser as an IN list
                                                      # (<subquery>, b): write EXISTS there so the text means the program
                                                      "where_op": "in" if nm["alias_tables"] else "exists"},
